@@ -190,7 +190,7 @@ func mixedPlan(r *rand.Rand, v primitive.ProtocolVersion, specs []frameSpec, k i
 			if parts == 0 {
 				ps = maxParts(n)
 			} else {
-				ps = cutParts(r, n, parts, 9)
+				ps = cutParts(r, n, parts, 1)
 			}
 			plan = append(plan, splitPlan(i, ps)...)
 			continue
@@ -357,7 +357,7 @@ func buildPlan(tier string, seed int64) []planned {
 		}
 	}
 
-	// every split point of a small envelope, two parts (quick: a few points)
+	// every split point of a small envelope, two parts - cuts inside the 9-byte header included (quick: a few points)
 	tiny := []frameSpec{{Kind: "query", Sid: 11, Fill: "p", Seed: 4, N: 30}}
 	n := envLen(v5, tiny[0])
 	var points []int
@@ -366,21 +366,19 @@ func buildPlan(tier string, seed int64) []planned {
 			points = append(points, k)
 		}
 	} else {
-		points = []int{5, 9, 10, n - 1}
+		points = []int{1, 5, 8, 9, 10, n - 1}
 	}
 	for _, k := range points {
-		conforming := k >= 9
-		class := "split-point"
-		if !conforming {
-			class = "first-part-shorter-than-header"
-		}
 		add(planned{ID: fmt.Sprintf("rawclient-v5-split-at-%d", k), Mode: "rawclient", Version: 5, Comp: "NONE",
-			Script: &rawScript{Specs: tiny, Plan: splitPlan(0, []int{k, n - k}), Conforming: true, Class: class}})
+			Script: &rawScript{Specs: tiny, Plan: splitPlan(0, []int{k, n - k}), Conforming: true, Class: "split-point"}})
 	}
+	// the header spread over many parts, zero-length parts before, between and after
+	add(planned{ID: "rawclient-v5-header-in-pieces", Mode: "rawclient", Version: 5, Comp: "LZ4", Auth: true,
+		Script: &rawScript{Specs: tiny, Plan: splitPlan(0, []int{0, 1, 1, 0, 2, 1, 3, 0, 1, 4, n - 13, 0}), Conforming: true, Class: "header-in-pieces"}})
 	// ... and towards the client
 	rtiny := []frameSpec{{Kind: "rows", Sid: 10, Fill: "p", Seed: 4, N: 30}}
 	rn := envLen(v5, rtiny[0])
-	cpoints := []int{5, 9, rn - 1}
+	cpoints := []int{1, 5, 8, 9, rn - 1}
 	if thorough {
 		cpoints = nil
 		for k := 1; k < rn; k += 1 {
@@ -388,13 +386,11 @@ func buildPlan(tier string, seed int64) []planned {
 		}
 	}
 	for _, k := range cpoints {
-		class := "split-point"
-		if k < 9 {
-			class = "first-part-shorter-than-header"
-		}
 		add(planned{ID: fmt.Sprintf("rawserver-v5-split-at-%d", k), Mode: "rawserver", Version: 5, Comp: "NONE", Reqs: smallRequests(1, 10),
-			Script: &rawScript{Specs: rtiny, Plan: splitPlan(0, []int{k, rn - k}), Conforming: true, Class: class}})
+			Script: &rawScript{Specs: rtiny, Plan: splitPlan(0, []int{k, rn - k}), Conforming: true, Class: "split-point"}})
 	}
+	add(planned{ID: "rawserver-v5-header-in-pieces", Mode: "rawserver", Version: 5, Comp: "NONE", Reqs: smallRequests(1, 10),
+		Script: &rawScript{Specs: rtiny, Plan: splitPlan(0, []int{0, 2, 0, 3, 1, 1, 1, 0, 5, rn - 13, 0}), Conforming: true, Class: "header-in-pieces"}})
 
 	// what the code does with peers that do NOT follow the specification (model/code correspondence only)
 	two := []frameSpec{{Kind: "query", Sid: 11, Fill: "p", Seed: 4, N: 40}, {Kind: "query", Sid: 12, Fill: "p", Seed: 5, N: 12}}
